@@ -111,7 +111,7 @@ def lean_check(prop_id, module, theorems, regen=None, clean=False):
     r.obligations = list(theorems)
     if regen is not None:
         try:
-            regen()
+            regen(prop_id)
         except Exception as e:  # translator cannot follow the source
             r.ok = False
             r.failed.append(('translator', '%s: %s' % (type(e).__name__, e)))
